@@ -333,11 +333,20 @@ func checkESRCH(c *Check, handle *ssa.Function) {
 		if iff == nil {
 			continue
 		}
-		bo, ok := iff.Cond.(*ssa.BinOp)
-		if !ok || bo.Op != token.EQL {
+		// err == ESRCH, or errors.Is(err, ESRCH)
+		var cmpX, cmpY ssa.Value
+		var cmpPos token.Pos
+		if bo, ok := iff.Cond.(*ssa.BinOp); ok && bo.Op == token.EQL {
+			cmpX, cmpY, cmpPos = bo.X, bo.Y, bo.Pos()
+		} else if call, ok := iff.Cond.(*ssa.Call); ok {
+			if e, tgt, ok := errorsIsConst(call); ok {
+				cmpX, cmpY, cmpPos = e, tgt, call.Pos()
+			}
+		}
+		if cmpX == nil {
 			continue
 		}
-		mi, ok := bo.Y.(*ssa.MakeInterface)
+		mi, ok := cmpY.(*ssa.MakeInterface)
 		if !ok {
 			continue
 		}
@@ -345,6 +354,10 @@ func checkESRCH(c *Check, handle *ssa.Function) {
 			continue
 		}
 		n++
+		bo := struct {
+			X   ssa.Value
+			pos token.Pos
+		}{cmpX, cmpPos}
 		var prod *ssa.Function
 		if call, ok := bo.X.(*ssa.Call); ok {
 			_, prod = calleeOf(call)
@@ -360,7 +373,7 @@ func checkESRCH(c *Check, handle *ssa.Function) {
 			continue
 		}
 		wraps := errorWrapped(prod, 6)
-		c.Cond(len(wraps) == 0, "2/vanished-tracee", key+":raw-error("+prod.Name()+")", p.Pos(bo.Pos()), "the compared error is the ptrace primitive's own errno",
+		c.Cond(len(wraps) == 0, "2/vanished-tracee", key+":raw-error("+prod.Name()+")", p.Pos(bo.pos), "the compared error is the ptrace primitive's own errno",
 			"the error compared with ESRCH by == may be wrapped ("+strings.Join(wraps, ", ")+"): a vanished tracee is then reported as a runner or policy error instead of falling back to wait4")
 	}
 	c.Cond(n >= 2, "2/vanished-tracee", "ptracer."+handle.Name()+":ESRCH-tests", p.Pos(handle.Pos()), fmt.Sprintf("%d ESRCH tests", n), fmt.Sprintf("%d ESRCH tests in the wait-status handler (expected ≥2: option setting and trap handling)", n))
